@@ -319,6 +319,8 @@ class Ctx:
             m = f.get("match", {})
             if all(v.get(k) == val for k, val in m.items()):
                 self.known_hit.setdefault(f["key"], {"what": f["what"], "count": 0})["count"] += 1
+                if os.environ.get("VERIF_DEBUG_KNOWN"):
+                    print("KNOWN-HIT %s %s" % (f["key"], json.dumps(v, default=str)[:400]))
                 return "known"
         if replay_obj is not None and len(self.violations) < 20:
             d = os.path.join(ROOT, "evidence", "replays", self.pid)
